@@ -11,6 +11,13 @@ for dp,_,fns in os.walk('/verif/overlay'):
         if fn.endswith('.go'):
             rel=os.path.relpath(os.path.join(dp,fn),'/verif/overlay')
             ov["Replace"][os.path.join('/repo',rel)]=os.path.join(dp,fn)
+import sys
+harness=os.environ.get('DEV_HARNESS','chainsim')
+for i,pt in enumerate(json.load(open('/verif/tools/srcpatch.json')).get(harness,[])):
+    src=os.path.join('/repo',pt['file']); text=open(src).read()
+    assert text.count(pt['old'])==1, pt['file']
+    os.makedirs('/var/tmp/dev-patched',exist_ok=True)
+    dst='/var/tmp/dev-patched/%d_%s'%(i,os.path.basename(pt['file'])); open(dst,'w').write(text.replace(pt['old'],pt['new'])); ov["Replace"][src]=dst
 json.dump(ov,open('/var/tmp/dev-overlay.json','w'))
 PY
 pkg=$1; shift
